@@ -18,7 +18,8 @@ SEQ_ASSUME = ["calculators depend on (key, value, current duration) only; creati
 MAINT = dict(engine="maint", scale_quick=5, scale_thorough=20, timeout_quick=900, timeout_thorough=6000)
 MAINT_RULE = ("maint engine: the seq engine restricted to one index action per operation (no bulk/refresh/InvalidateAll), size- or weight-bounded and/or "
               "expiring caches with maxima <= 12 so that the hill climber's floating-point step is zero, 4-8 keys; the hook at the start of cache.maintenance marks "
-              "every maintenance run; the extracted Maint/Policy/Wheel/Sketch model replays tasks, read buffer, sweeps and evictions in a closed loop (no oracle "
+              "every maintenance run; in a third of the cases queued maintenance is run rarely so that write events pile up, and the write buffer is then re-queued in another order (swap / reverse / shuffle, "
+              "export VerifPermuteWriteBuffer) as when the writers are different goroutines; the extracted Maint/Policy/Wheel/Sketch model replays tasks, read buffer, sweeps and evictions in a closed loop (no oracle "
               "input except key hashes and the window/protected maxima) and is compared after every operation on all deques, counters, wheel buckets and node states; "
               "every automatic removal must be predicted exactly; C04/C05/C13 view oracles are evaluated on the implementation at every quiescent point")
 MAINT_ASSUME = ["single goroutine; the read buffer is one ring (no contention)", "maxima <= 12: hill-climber adjustment is 0 (floating point not modelled)",
@@ -30,7 +31,7 @@ MPSC = dict(engine="mpsc", scale_quick=4, scale_thorough=30, timeout_quick=600, 
 HMAP = dict(engine="hmap", scale_quick=3, scale_thorough=12, timeout_quick=900, timeout_thorough=6000)
 
 LOAD = dict(engine="load", scale_quick=2, scale_thorough=15, timeout_quick=900, timeout_thorough=6000)
-LOAD_RULE = ("load engine (a Clock whose next sample can run a callback places a late Get of the same key between a loader's return and the publication of its result: it must join, not load): 120 scripted cases per unit of scale over 1-3 keys, 6-20 macro steps each: loader-backed Get / explicit Refresh callers (goroutines), a gated loader whose every invocation "
+LOAD_RULE = ("load engine (half of the joiners of an in-flight load are single-key BulkGet calls; a Clock whose next sample can run a callback places a late Get of the same key between a loader's return and the publication of its result: it must join, not load): 120 scripted cases per unit of scale over 1-3 keys, 6-20 macro steps each: loader-backed Get / explicit Refresh callers (goroutines), a gated loader whose every invocation "
              "the harness finishes when and how it chooses (value / error / not-found / panic), explicit writes (Set, SetIfAbsent, Compute) and invalidations placed before, during and after loads; "
              "every step is an event of the Coq protocol model, which must predict who joins, who loads, what is installed, who is released and each key's value after every step; "
              "distinct_nontrivial = distinct (event kind, join expected?, outcome, superseded?, number of waiters) combinations")
@@ -92,9 +93,10 @@ PROPS = {
     "C10": dict(engines=[SEQ], rule=SEQ_RULE, assumptions=SEQ_ASSUME),
     "C11": dict(engines=[SEQ, LOAD], rule=SEQ_RULE + " | " + LOAD_RULE, assumptions=SEQ_ASSUME + ["in-flight / dedup behaviour of refresh is covered by C08/C09, not here"]),
     "C12": dict(engines=[SEQ], rule=SEQ_RULE, assumptions=SEQ_ASSUME),
-    "C20": dict(engines=[SEQ, dict(LIN, model=False)],
+    "C20": dict(engines=[SEQ, dict(LIN, model=False), LOAD],
                 rule=SEQ_RULE + " | lin engine (implementation oracle only): after every concurrent case Stats.Evictions and EvictionWeight must equal the number of automatic removals the cache reported, "
-                                "however invalidations and replacements raced with maintenance",
+                                "however invalidations and replacements raced with maintenance"
+                                " | load engine: LoadSuccesses + LoadFailures must equal the number of loader invocations of every case, joiners (Get and single-key BulkGet callers of an in-flight load) counting nothing",
                 assumptions=SEQ_ASSUME + ["hit/miss/load counters are compared sequentially only"]),
     "C18": dict(
         engines=[SKETCH],
